@@ -46,7 +46,9 @@ impl EnvEngine {
         // a deterministic sample of all cases runs on fresh threads with recorded hash keys;
         // the rest runs on the worker's own thread (thread creation dominates the cost of a
         // case in this sandbox)
-        if k % 64 == 0 {
+        // cases with injected history always get a thread of their own: what a failed
+        // compile or exec leaves behind on a thread must not reach other cases
+        if k % 64 == 0 || !c.pre.is_empty() {
             c.threads = true;
         }
         c
@@ -128,6 +130,15 @@ impl EnvEngine {
         }
         if case.via_json {
             fired.insert("bound_via_json".into(), 1);
+        }
+        for p in case.pre.iter() {
+            let k = match p.kind {
+                ast::PreKind::BadCompile(_) | ast::PreKind::BadCompileFree(_) => "pre_failed_compile",
+                ast::PreKind::FailExec(_) => "pre_failed_exec",
+                ast::PreKind::DepthExec(_) => "pre_exec_into_depth_limit",
+                ast::PreKind::OkExec(_) => "pre_ok_exec",
+            };
+            *fired.entry(k.into()).or_insert(0) += 1;
         }
         let skel = case.skeleton();
         let key = fnv(format!("{}|{}|{}", skel, st.outcome_kind, st.log_digest).as_bytes());
